@@ -159,6 +159,23 @@ func Solve(b *B, q *Query, file string, timeoutSec int, crossCheck bool) *SolveR
 		byBackend[res.Backend]++
 		statMu.Unlock()
 	}
+	if res.Status == "sat" && len(q.Prefer) > 0 {
+		// look for a model that the replay harness can build (small slices …)
+		q2 := &Query{Hyps: append(append([]*Term{}, q.Hyps...), q.Prefer...), Goals: q.Goals, Values: q.Values}
+		smt2, vals2 := q2.Emit(b, false)
+		var sb2 strings.Builder
+		sb2.WriteString(smt2)
+		for _, v := range vals2 {
+			fmt.Fprintf(&sb2, "(get-value (%s))\n", v.Expr)
+		}
+		f2 := strings.TrimSuffix(file, ".smt2") + ".small.smt2"
+		if os.WriteFile(f2, []byte(sb2.String()), 0o644) == nil {
+			st2, raw2, _ := runBackend(backends[0], f2, timeoutSec, quant)
+			if st2 == "sat" {
+				res.Raw, vals = raw2, vals2
+			}
+		}
+	}
 	if res.Status == "sat" {
 		res.Model = map[string]uint64{}
 		lines := strings.Split(res.Raw, "\n")
@@ -168,6 +185,10 @@ func Solve(b *B, q *Query, file string, timeoutSec int, crossCheck bool) *SolveR
 				break
 			}
 			ln = strings.TrimRight(ln, " \r")
+			if strings.HasPrefix(ln, "(error") {
+				k++ // this request produced no value
+				continue
+			}
 			if !strings.HasPrefix(ln, "((") {
 				continue
 			}
